@@ -492,6 +492,9 @@ Theorem C16_logfields_add : forall l new, md_wf (md_entries l) -> md_wf (md_entr
 Proof. exact lf_add_spec. Qed.
 Theorem C16_logfields_copy : forall l, md_wf (md_entries l) -> lf_copy l = md_entries l.
 Proof. exact lf_copy_spec. Qed.
+Theorem C16_copy_drops_context : forall mc c,
+  fst (copy_c (set_context mc c)) = fst mc /\ snd (copy_c (set_context mc c)) = 0%N.
+Proof. exact copy_drops_context. Qed.
 Theorem C16_id_formats_usable : forall s,
   uuid4_format s = true \/ shortuuid_format s = true \/ ulid_format s = true -> s <> [] /\ utf8_valid s = true.
 Proof. exact id_formats_usable. Qed.
@@ -572,6 +575,7 @@ Print Assumptions C16_messages_ids.
 Print Assumptions C16_logfields_add.
 Print Assumptions C16_logfields_copy.
 Print Assumptions C16_id_formats_usable.
+Print Assumptions C16_copy_drops_context.
 
 (** * Non-vacuity *)
 
